@@ -33,6 +33,7 @@
  * {"i":n,"op":..,"aborted":true} and the process exits with status 3.
  */
 #include <errno.h>
+#include <fcntl.h>
 #include <inttypes.h>
 #include <pthread.h>
 #include <stdint.h>
@@ -40,6 +41,7 @@
 #include <stdlib.h>
 #include <string.h>
 #include <sys/stat.h>
+#include <sys/syscall.h>
 #include <unistd.h>
 
 #include "ovni.h"
@@ -142,6 +144,30 @@ static int hexval(int c)
 	if (c >= 'a' && c <= 'f') return c - 'a' + 10;
 	if (c >= 'A' && c <= 'F') return c - 'A' + 10;
 	return -1;
+}
+
+/* A complete earlier thread of this process with thread id *p: init, one CPU, execute, end, flush, free. */
+static void *first_life(void *p)
+{
+	int tid = *(int *) p;
+	struct ovni_ev ev;
+	int32_t a[2] = { 0, tid };
+	uint64_t tag = 0x5eed;
+	ovni_thread_init(tid);
+	ovni_add_cpu(0, 0);
+	memset(&ev, 0, sizeof(ev));
+	ovni_ev_set_clock(&ev, ovni_clock_now());
+	ovni_ev_set_mcv(&ev, "OHx");
+	ovni_payload_add(&ev, (uint8_t *) a, sizeof(a));
+	ovni_payload_add(&ev, (uint8_t *) &tag, sizeof(tag));
+	ovni_ev_emit(&ev);
+	memset(&ev, 0, sizeof(ev));
+	ovni_ev_set_clock(&ev, ovni_clock_now());
+	ovni_ev_set_mcv(&ev, "OHe");
+	ovni_ev_emit(&ev);
+	ovni_flush();
+	ovni_thread_free();
+	return NULL;
 }
 
 static int run_script(const char *script, const char *logpath)
@@ -280,6 +306,29 @@ static int run_script(const char *script, const char *logpath)
 		} else if (!strcmp(op, "barrier")) {
 			if (mt)
 				pthread_barrier_wait(&bar);
+		} else if (!strcmp(op, "spawn_life")) {
+			/* an earlier thread with the given id lives and finishes (in an OS thread of its own:
+			 * the library refuses to initialise one OS thread twice) */
+			int t = 0;
+			pthread_t th;
+			sscanf(rest, "%d", &t);
+			pthread_create(&th, NULL, first_life, &t);
+			pthread_join(th, NULL);
+		} else if (!strcmp(op, "pad")) {
+			/* harmless failing calls: the per-thread call counts of this OS thread get past
+			 * anything another thread of the process did (fault injection by ordinal) */
+			for (int k = 0; k < 60; k++) {
+				char buf[8];
+				mkdir("/nonexistent/verif-pad/x", 0755);
+				close(open("/nonexistent/verif-pad", O_RDONLY));
+				if (write(-1, buf, 0) < 0 && read(-1, buf, 0) < 0)
+					unlink("/nonexistent/verif-pad");
+				rmdir("/nonexistent/verif-pad");
+				syscall(SYS_getdents64, -1, buf, 0);
+			}
+		} else if (!strcmp(op, "sysmark")) {
+			/* a system call that changes nothing and is easy to find in a strace log */
+			unlink("/nonexistent/verif-sysmark");
 		} else if (!strcmp(op, "free")) {
 			ovni_thread_free();
 		} else if (!strcmp(op, "fini")) {
